@@ -267,9 +267,16 @@ Definition status_map (o : json) : option json :=
   | Some _ => None
   end.
 
-(* controllerutil.RemoveFinalizer: the filtered list is always written back *)
+(* controllerutil.RemoveFinalizer: the filtered list is always written back; GetFinalizers
+   yields nil for a missing or unusable field, and SetFinalizers(nil) removes the field *)
 Definition strip_finalizer (f : string) (o : json) : json :=
-  set_finalizers o (filter (fun x => negb (String.eqb x f)) (get_finalizers o)).
+  match nested_get (obj_map o) ["metadata"; "finalizers"] with
+  | NFound (JArr l) =>
+      if forallb (fun j => match j with JStr _ => true | _ => false end) l
+      then set_finalizers o (filter (fun x => negb (String.eqb x f)) (get_finalizers o))
+      else match o with JObj m => JObj (nested_remove m ["metadata"; "finalizers"]) | _ => o end
+  | _ => match o with JObj m => JObj (nested_remove m ["metadata"; "finalizers"]) | _ => o end
+  end.
 
 (* the object sent with the requests: the (cached) target with the merged maps and the status *)
 Definition decorated (parent : json) (labels annots : smap) (status : json) : json :=
